@@ -1072,9 +1072,23 @@ impl Entry {
                     .filter_map(|c| c.as_token().map(|t| t.text()))
                     .collect::<String>();
                 let formatted = format_value(self.key().as_ref().unwrap(), &concat);
-                crate::lex::lex_inline(&formatted)
-                    .map(|(k, t)| (k, t.to_string()))
-                    .collect::<Vec<_>>()
+                // Every line of the formatted value is value text: the lexer
+                // would take the start of a continuation line for a key
+                let mut tokens = vec![];
+                for (i, line) in formatted.split('\n').enumerate() {
+                    if i > 0 {
+                        tokens.push((NEWLINE, "\n".to_string()));
+                    }
+                    let text = line.trim_start_matches([' ', '\t']);
+                    if i == 0 && text.len() < line.len() {
+                        let ws = &line[..line.len() - text.len()];
+                        tokens.push((WHITESPACE, ws.to_string()));
+                    }
+                    if !text.is_empty() {
+                        tokens.push((VALUE, text.to_string()));
+                    }
+                }
+                tokens
             } else {
                 content
                     .into_iter()
